@@ -27,7 +27,7 @@ VALS = [A('a'), A('b'), A('c'), I(1), I(2)]
 
 def plan(tier, seed):
     if tier == 'quick':
-        return {'n': 40000, 'deadline': 150,
+        return {'n': 26000, 'deadline': 150,
                 'floor': {'distinct_nontrivial': 6000, 'mods_while_suspended': 30000, 'api_histories': 8000,
                           'compiled_histories': 6000, 'retract_enumerations': 6000, 'query_enumerations': 6000}}
     return {'n': 120000 + exh_count(), 'deadline': 540, 'exh': exh_count(),
@@ -117,8 +117,20 @@ def gen_api(rng):
 
     def fact():
         return C(name, *[rng.choice(VALS) for _ in range(n)])
-    for _ in range(rng.choice([0, 1, 2, 3, 4, 5])):
-        hist.append(('assert_fact', fact(), True))
+    big = rng.random() < 0.15
+    live = []
+    if big:
+        # large predicates: size-dependent code paths (thresholds such as 16/32/64/128 facts)
+        nbig = rng.choice([17, 33, 34, 40, 65, 70, 130])
+        c['large_predicates'] = 1
+        for i in range(nbig):
+            t = C(name, *([I(100 + i)] + [rng.choice(VALS) for _ in range(n - 1)]))
+            hist.append(('assert_fact', t, True))
+            live.append(100 + i)
+        nxt = [100 + nbig]
+    else:
+        for _ in range(rng.choice([0, 1, 2, 3, 4, 5])):
+            hist.append(('assert_fact', fact(), True))
     nenum = rng.choice([1, 1, 2, 3])
     open_ = []
     started = 0
@@ -145,6 +157,23 @@ def gen_api(rng):
             q = rng.choice(open_)
             open_.remove(q)
             hist.append(('close', q))
+        elif big:
+            # modifications at the ends of the list: remove the last / first fact, then add a new one
+            m = rng.random()
+            if m < 0.45 and live:
+                k = live.pop(-1) if rng.random() < 0.5 else live.pop(0) if rng.random() < 0.5 else live.pop(rng.randrange(len(live)))
+                hist.append(('run', 'retract', [C(name, *([I(k)] + [V('_')] * (n - 1)))], 1))
+            else:
+                z = rng.random() < 0.6
+                t = C(name, *([I(nxt[0])] + [rng.choice(VALS) for _ in range(n - 1)]))
+                hist.append(('assert_fact', t, z))
+                if z:
+                    live.append(nxt[0])
+                else:
+                    live.insert(0, nxt[0])
+                nxt[0] += 1
+            if open_:
+                mods += 1
         else:
             m = rng.random()
             if m < 0.35:
@@ -161,7 +190,7 @@ def gen_api(rng):
                 mods += 1
     # drain
     for q in open_:
-        for _ in range(8):
+        for _ in range(8 if not big else 12):
             hist.append(('next', q))
     hist.append(('dump', [key]))
     c['mods_while_suspended'] = mods
